@@ -32,31 +32,40 @@ Proof.
 Qed.
 
 
-(* the loop: if every element decode is good (and consumes >= 1 byte), the
-   loop never panics and its meter is bounded *)
-Lemma loop_good : forall (de : bytes -> dres) (ke ce ic : N),
+Lemma div_up : forall x mn, 1 <= mn -> x <= (x / mn + 1) * mn.
+Proof.
+  intros x mn H. pose proof (N.div_mod x mn). pose proof (N.mod_lt x mn). nia.
+Qed.
+
+(* the loop: if every element decode is good and consumes >= mn >= 1 bytes, the
+   loop never panics; each iteration pays its constant overhead ic with the
+   bytes it consumed *)
+Lemma loop_good : forall (de : bytes -> dres) (ke ce ic mn : N), 1 <= mn ->
   (forall bs, match de bs with
-              | (Ok (_, rest), m) => len rest + 1 <= len bs /\ m <= ke * (len bs - len rest)
+              | (Ok (_, rest), m) => len rest + mn <= len bs /\ m <= ke * (len bs - len rest)
               | (Err, m) => m <= ke * len bs + ce
               | (Panic, _) => False
               end) ->
   forall fuel k bs,
   match loop de ic fuel k bs with
-  | (Ok (vs, rest), m) => len rest + N.of_nat (length vs) <= len bs /\
-                          m <= (ke + ic) * (len bs - len rest)
-  | (Err, m) => m <= (ke + ic) * len bs + ce
+  | (Ok (vs, rest), m) => len rest + mn * N.of_nat (length vs) <= len bs /\
+                          m <= (ke + (ic / mn + 1)) * (len bs - len rest)
+  | (Err, m) => m <= (ke + (ic / mn + 1)) * len bs + ce
   | (Panic, _) => False
   end.
 Proof.
-  intros de ke ce ic Hde. induction fuel; intros k bs; simpl.
+  intros de ke ce ic mn Hmn Hde. pose proof (div_up ic mn Hmn) as F.
+  remember (ic / mn + 1) as q. clear Heqq.
+  induction fuel; intros k bs; simpl.
   - destruct (k =? 0); simpl; lia.
   - destruct (k =? 0); [simpl; lia|].
     specialize (Hde bs). destruct (de bs) as [[[v rest]| |] m]; [|nia|contradiction].
     destruct Hde as [H1 H2].
     specialize (IHfuel (k - 1) rest).
     destruct (loop de ic fuel (k - 1) rest) as [[[vs rest']| |] m']; [| |contradiction].
-    + destruct IHfuel as [I1 I2]. simpl length. split; [lia|]. nia.
-    + nia.
+    + destruct IHfuel as [I1 I2]. simpl length. split; [lia|].
+      assert (ic <= q * (len bs - len rest)) by nia. nia.
+    + assert (ic <= q * (len bs - len rest)) by nia. nia.
 Qed.
 
 Lemma loop_length : forall de ic fuel k bs vs rest m,
@@ -104,6 +113,12 @@ Proof.
     cbn [wf_alloc] in WF. repeat (apply andb_true_iff in WF; destruct WF as [WF ?]).
     rename H into WP, H0 into We, H1 into Wm. apply N.leb_le in WF, Wm.
     pose proof (wf_cnt_cost c) as CC.
+    pose proof (div_up esz (minsz f) Wm) as F1.
+    assert (IQ : iter_cost p esz / minsz f <= (8 * esz) / minsz f)
+      by (apply N.div_le_mono; [lia|destruct p; cbn [iter_cost]; lia]).
+    pose proof (loop_good (decode f cx) (kf f) (cf f) (iter_cost p esz) (minsz f) Wm) as L.
+    remember (esz / minsz f) as q1 eqn:Eq1. remember ((8 * esz) / minsz f) as q2 eqn:Eq2.
+    remember (iter_cost p esz / minsz f) as q3 eqn:Eq3. clear Eq1 Eq2 Eq3.
     destruct (read_cnt c bs) as [[n rest]|] eqn:R; [|lia].
     apply read_cnt_len in R.
     destruct (match bound with Some b => b <? n | None => false end) eqn:BD; [lia|].
@@ -115,32 +130,34 @@ Proof.
         unfold makeslice_ok in *; apply andb_true_iff in Hm; destruct Hm as [M1 M2];
         apply N.leb_le in M1, M2; apply negb_false_iff; apply andb_true_iff; split; apply N.leb_le; nia. }
     rewrite MS.
-    assert (IT : (if asint && (max_int <? n) then 0 else n) <= n) by (destruct (asint && (max_int <? n)); lia).
-    pose proof (loop_good (decode f cx) (kf f) (cf f) (iter_cost p esz)) as L.
     assert (Hde : forall bs0, match decode f cx bs0 with
-              | (Ok (_, rest0), m) => len rest0 + 1 <= len bs0 /\ m <= kf f * (len bs0 - len rest0)
+              | (Ok (_, rest0), m) => len rest0 + minsz f <= len bs0 /\ m <= kf f * (len bs0 - len rest0)
               | (Err, m) => m <= kf f * len bs0 + cf f
               | (Panic, _) => False end).
     { intros bs0. specialize (IHf We cx bs0). unfold good in IHf.
-      destruct (decode f cx bs0) as [[[v r0]| |] m]; auto. lia. }
+      destruct (decode f cx bs0) as [[[v r0]| |] m]; auto. }
     specialize (L Hde (S (length rest)) (if asint && (max_int <? n) then 0 else n) rest).
-    assert (IC : iter_cost p esz <= 8 * esz) by (destruct p; simpl; lia).
     destruct (loop (decode f cx) (iter_cost p esz) (S (length rest)) (if asint && (max_int <? n) then 0 else n) rest)
       as [[[vs rest']| |] m] eqn:LL; [| |contradiction].
     + destruct L as [L1 L2]. split; [lia|].
       (* the count-sized allocation is paid for by the elements actually read *)
-      assert (PC : match p with NoPre => 0 | _ => n * esz end <= esz * (len rest - len rest')).
+      assert (PC : match p with NoPre => 0 | _ => n * esz end <= (q1 + 1) * (len rest - len rest')).
       { destruct p; [apply N.le_0_l| |].
         all: destruct PRE as [b [Eb [Hb Hm]]]; try discriminate.
         all: unfold makeslice_ok in Hm; apply andb_true_iff in Hm; destruct Hm as [M1 _]; apply N.leb_le in M1.
         all: assert (IT' : (if asint && (max_int <? n) then 0 else n) = n)
                by (replace (max_int <? n) with false by (symmetry; apply N.ltb_ge; lia);
                    rewrite andb_false_r; reflexivity).
-        all: rewrite IT' in LL; apply loop_length in LL; nia. }
+        all: rewrite IT' in LL; apply loop_length in LL.
+        all: assert (n * esz <= n * ((q1 + 1) * minsz f)) by nia.
+        all: assert (minsz f * n <= len rest - len rest') by lia.
+        all: nia. }
+      assert (m <= (kf f + (q2 + 1)) * (len rest - len rest')) by nia.
       nia.
     + assert (PC : match p with NoPre => 0 | _ => n * esz end <=
                    match p, bound with NoPre, _ => 0 | _, Some b => b * esz | _, None => 0 end).
       { destruct p; [lia| |]; destruct PRE as [b [Eb [Hb Hm]]]; try discriminate; subst bound; nia. }
+      assert (m <= (kf f + (q2 + 1)) * len rest + cf f) by nia.
       nia.
   - (* FTag *)
     cbn [wf_alloc] in WF.
